@@ -54,6 +54,9 @@ def modelRequestFields : List String :=
 /-- A heap of backing arrays. -/
 abbrev Heap (α : Type) := List (List α)
 
+/-- The backing array with number `a` (empty if it does not exist). -/
+def heapAt {α} (h : Heap α) (a : Nat) : List α := h.getD a []
+
 /-- A Go slice with offset 0: backing array, length, capacity (`len ≤ cap ≤` array size). -/
 structure Slice where
   arr : Nat
@@ -64,7 +67,7 @@ structure Slice where
 namespace Slice
 
 /-- The elements a slice shows. -/
-def view {α} (h : Heap α) (s : Slice) : List α := (h.getD s.arr []).take s.len
+def view {α} (h : Heap α) (s : Slice) : List α := (heapAt h s.arr).take s.len
 
 /-- `s[:i:j]` (full slice expression); `none` models the run-time panic when `i ≤ j ≤ cap` fails. -/
 def reslice3 (s : Slice) (i j : Nat) : Option Slice :=
@@ -78,7 +81,7 @@ def reslice2 (s : Slice) (i : Nat) : Option Slice :=
     irrelevant: any capacity `≥ len+1` gives the same views). -/
 def append {α} (h : Heap α) (s : Slice) (x : α) : Heap α × Slice :=
   if s.len < s.cap then
-    (h.set s.arr ((h.getD s.arr []).set s.len x), { s with len := s.len + 1 })
+    (h.set s.arr ((heapAt h s.arr).set s.len x), { s with len := s.len + 1 })
   else
     let elems := s.view h ++ [x]
     (h ++ [elems], { arr := h.length, len := s.len + 1, cap := s.len + 1 })
@@ -87,7 +90,7 @@ end Slice
 
 /-- Well-formed slice: the array exists and is at least `cap` long, `len ≤ cap`. -/
 def Slice.WF {α} (h : Heap α) (s : Slice) : Prop :=
-  s.arr < h.length ∧ s.len ≤ s.cap ∧ s.cap ≤ (h.getD s.arr []).length
+  s.arr < h.length ∧ s.len ≤ s.cap ∧ s.cap ≤ (heapAt h s.arr).length
 
 /-- The loop `for ; i < len(rules); i++ { if r.DNSRewrite == nil { filtered = append(filtered, r) } }`
     over the elements read from the caller's slice one at a time (each read sees the CURRENT heap, as
@@ -95,7 +98,7 @@ def Slice.WF {α} (h : Heap α) (s : Slice) : Prop :=
 def rewriteLoop {α} (isRw : α → Bool) (rules : Slice) : Nat → Nat → Heap α → Slice → Heap α × Slice
   | 0, _, h, f => (h, f)
   | fuel + 1, i, h, f =>
-    match (h.getD rules.arr [])[i]? with
+    match (heapAt h rules.arr)[i]? with
     | none => (h, f)
     | some r =>
       if i < rules.len then
